@@ -20,26 +20,25 @@ Theorems (all for arbitrary dictionaries, inputs, sizes, options):
 * `suggest_fuzzy`             — fuzzy mode: Levenshtein distance ≤ `min max_edits 2`, shares the
                                 first `prefix_length` characters, is indexed
                                 (`lev_textbook`: the bounded DP = textbook recurrence, cut off);
-* `scan_is_take`              — the scan loop = first `cap` qualifying (segment, term) pairs;
-* `suggest_df_sum_partial`    — `doc_freq = totalDf`, score = weight · `totalDf`, **provided the
-                                number of qualifying (segment, term) pairs is ≤ the scan cap**;
-* `suggest_complete_partial`  — under the same hypothesis every qualifying indexed term is a
-                                candidate (so the result is the top `size` of all of them);
-* `suggest_layout_independent_partial` — two layouts with the same `totalDf` give the same
-                                options, under the same hypothesis for both.
+* `scan_is_sublist`           — the scan = merge of a sub-list of the qualifying entries;
+* `scan_is_merge`             — while the number of DISTINCT qualifying terms is ≤ the scan cap
+                                the scan = merge of ALL qualifying entries of all segments;
+* `suggest_df_sum`            — then `doc_freq = totalDf` and score = weight · `totalDf`;
+* `suggest_complete`          — then every qualifying indexed term is a candidate (so the result
+                                is the top `size` of all of them);
+* `suggest_layout_independent`— then two layouts with the same per-term totals (the same
+                                documents distributed differently over segments) give identical
+                                options — the hypothesis is needed for ONE layout only
+                                (`matchingTerms_layout`).
 
-FULL STATEMENT of the last three (false of the unchanged code, see
-`cap_counts_pairs_not_terms`): the hypothesis should be "the number of *distinct* qualifying
-terms is ≤ the scan cap" (`matchingTerms`), as the property says "while fewer terms than the
-scan cap match".  The code counts one expansion per segment in which a term occurs
-(`expanded_total += 1` inside the per-segment loop), so a term indexed in 3 segments uses 3
-units of the cap.
+All at full strength: the hypothesis is the property's own "fewer terms than the scan cap match"
+(`matchingTerms … ≤ scanCap`, which `<` implies).
 
-    theorem suggest_layout_independent (h : StrictTotal ltT)
-        (hsame : ∀ t, totalDf segs₁ t = totalDf segs₂ t)
-        (h₁ : matchingTerms segs₁ input fz ≤ scanCap size fz)
-        (h₂ : matchingTerms segs₂ input fz ≤ scanCap size fz) :
-        suggest ltT segs₁ input size fz = suggest ltT segs₂ input size fz
+History: before /repo commit e9ca503 the cap counted one unit per (segment, term) pair
+(`legacy_scanSegs`, `legacy_collect`, `legacy_suggest` in `Core/Suggest`); the property was false
+of that code — `legacy_cap_counts_pairs_not_terms` (kernel-checked) keeps the witness, and
+`fixed_on_witness` shows the current model on the same input.  Finding
+`suggest.cap-counts-segment-pairs`: fixed.
 -/
 set_option linter.unusedSectionVars false
 namespace SL.Suggest
@@ -82,13 +81,14 @@ def wOf (input : List κ) : Option FuzzyOpts → List κ → Nat
   | none => fun _ => 6
   | some o => fun t => weight6 ((boundedLev input t (min o.maxEdits 2)).getD 0)
 
-/-- what the cap counts: qualifying (segment, term) pairs -/
+/-- what the LEGACY cap counted: qualifying (segment, term) pairs -/
 def matchingPairs (segs : List (Dict κ)) (input : List κ) (fz : Option FuzzyOpts) : Nat :=
   (segs.flatten.filterMap (qOf input fz)).length
 
-/-- what the property speaks about: distinct qualifying terms -/
+/-- what the property speaks about and the cap now bounds: the number of distinct qualifying
+terms = size of the merged map of all qualifying entries -/
 def matchingTerms (segs : List (Dict κ)) (input : List κ) (fz : Option FuzzyOpts) : Nat :=
-  ((segs.flatten.filterMap (qOf input fz)).map (·.1)).eraseDups.length
+  (mergeAll (segs.flatten.filterMap (qOf input fz))).length
 
 /-! ## structure of `collect` -/
 
@@ -111,14 +111,14 @@ theorem qOf_eq_qGen (input : List κ) (fz : Option FuzzyOpts) :
         simpa using hc
       simp [hc']
 
-theorem collect_eq (segs : List (Dict κ)) (input : List κ) (size : Nat) (fz : Option FuzzyOpts) :
-    collect segs input size fz =
-      if disabled input fz then []
-      else mergeAll (scanSegs (qOf input fz) (scanCap size fz) 0 segs) := by
+theorem collectWith_eq (scan : (List κ × Nat → Option (Contrib κ)) → Nat → List (Cand κ))
+    (input : List κ) (size : Nat) (fz : Option FuzzyOpts) :
+    collectWith scan input size fz =
+      if disabled input fz then [] else scan (qOf input fz) (scanCap size fz) := by
   cases fz with
-  | none => simp [collect, disabled, qOf, scanCap]
+  | none => simp [collectWith, disabled, qOf, scanCap]
   | some o =>
-    simp only [collect, disabled, qOf, scanCap]
+    simp only [collectWith, disabled, qOf, scanCap]
     by_cases h1 : (decide (input.length < o.minLength) || o.maxExpansions == 0) = true
     · simp [h1]
     · have h1' : (decide (input.length < o.minLength) || o.maxExpansions == 0) = false := by
@@ -128,12 +128,53 @@ theorem collect_eq (segs : List (Dict κ)) (input : List κ) (size : Nat) (fz : 
       · have h2' : (min o.maxEdits 2 == 0) = false := by simpa using h2
         simp [h1', h2']
 
-/-- **the scan loop with its `break`s accepts exactly the first `cap` qualifying
-(segment, term) pairs, in segment order then key order** -/
-theorem scan_is_take (segs : List (Dict κ)) (input : List κ) (size : Nat) (fz : Option FuzzyOpts) :
-    scanSegs (qOf input fz) (scanCap size fz) 0 segs =
+theorem collect_eq (segs : List (Dict κ)) (input : List κ) (size : Nat) (fz : Option FuzzyOpts) :
+    collect segs input size fz =
+      if disabled input fz then []
+      else scanSegs (qOf input fz) (scanCap size fz) [] segs := by
+  unfold collect; rw [collectWith_eq]
+
+theorem legacy_collect_eq (segs : List (Dict κ)) (input : List κ) (size : Nat)
+    (fz : Option FuzzyOpts) :
+    legacy_collect segs input size fz =
+      if disabled input fz then []
+      else mergeAll (legacy_scanSegs (qOf input fz) (scanCap size fz) 0 segs) := by
+  unfold legacy_collect; rw [collectWith_eq]
+
+/-- LEGACY: the scan loop with its `break`s accepted exactly the first `cap` qualifying
+(segment, term) pairs, in segment order then key order -/
+theorem legacy_scan_is_take (segs : List (Dict κ)) (input : List κ) (size : Nat)
+    (fz : Option FuzzyOpts) :
+    legacy_scanSegs (qOf input fz) (scanCap size fz) 0 segs =
       (segs.flatten.filterMap (qOf input fz)).take (scanCap size fz) :=
-  scanSegs_zero _ _ _
+  legacy_scanSegs_zero _ _ _
+
+/-- a contribution carries the term of its dictionary entry -/
+theorem qOf_fst (input : List κ) (fz : Option FuzzyOpts) (e : List κ × Nat) (c : Contrib κ)
+    (h : qOf input fz e = some c) : c.1 = e.1 := by
+  rw [qOf_eq_qGen] at h
+  unfold qGen at h
+  split at h
+  · cases h; rfl
+  · cases h
+
+/-- the scan is the merge of a sub-list of the qualifying entries (no hypothesis) -/
+theorem scan_is_sublist (segs : List (Dict κ)) (input : List κ) (size : Nat)
+    (fz : Option FuzzyOpts) :
+    ∃ A, A.Sublist (segs.flatten.filterMap (qOf input fz)) ∧
+      scanSegs (qOf input fz) (scanCap size fz) [] segs = mergeAll A := by
+  obtain ⟨A, hA, h⟩ := scanSegs_sub (qOf input fz) (scanCap size fz) segs []
+  exact ⟨A, hA, by simpa [mergeAll] using h⟩
+
+/-- **while the number of distinct qualifying terms is at most the cap, the scan is the merge
+of all qualifying entries of all segments** -/
+theorem scan_is_merge (segs : List (Dict κ)) (input : List κ) (size : Nat) (fz : Option FuzzyOpts)
+    (hcap : matchingTerms segs input fz ≤ scanCap size fz) :
+    scanSegs (qOf input fz) (scanCap size fz) [] segs =
+      mergeAll (segs.flatten.filterMap (qOf input fz)) := by
+  have := scanSegs_full (qOf input fz) (qOf_fst input fz) (scanCap size fz) segs []
+    (by simpa [matchingTerms] using hcap)
+  simpa [mergeAll] using this
 
 theorem mem_suggest {ltT : List κ → List κ → Bool} {segs : List (Dict κ)} {input : List κ}
     {size : Nat} {fz : Option FuzzyOpts} {c : Cand κ} (h : c ∈ suggest ltT segs input size fz) :
@@ -152,11 +193,12 @@ theorem collect_sound (segs : List (Dict κ)) (input : List κ) (size : Nat) (fz
   · cases h
   · rename_i hd
     refine ⟨by simpa using hd, ?_⟩
-    rw [scan_is_take, mem_mergeAll] at h
+    obtain ⟨A, hA, hscan⟩ := scan_is_sublist segs input size fz
+    rw [hscan, mem_mergeAll] at h
     obtain ⟨ht, _, _⟩ := h
     rw [List.mem_map] at ht
     obtain ⟨x, hx, hxt⟩ := ht
-    have hx' := List.mem_of_mem_take hx
+    have hx' := hA.subset hx
     rw [qOf_eq_qGen] at hx'
     obtain ⟨a1, a2, a3, _⟩ := mem_filterMap_qGen _ _ _ x hx'
     rw [hxt] at a1 a2
@@ -230,7 +272,9 @@ theorem collect_terms_nodup (segs : List (Dict κ)) (input : List κ) (size : Na
   rw [collect_eq]
   split
   · simp [terms]
-  · exact mergeAll_nodup _
+  · obtain ⟨A, _, hscan⟩ := scan_is_sublist segs input size fz
+    rw [hscan]
+    exact mergeAll_nodup A
 
 theorem suggest_terms_nodup (ltT : List κ → List κ → Bool) (segs : List (Dict κ)) (input : List κ)
     (size : Nat) (fz : Option FuzzyOpts) : (terms (suggest ltT segs input size fz)).Nodup := by
@@ -327,10 +371,40 @@ theorem suggest_fuzzy (ltT : List κ → List κ → Bool) (segs : List (Dict κ
   simp only [disabled, Bool.or_eq_false_iff, decide_eq_false_iff_not] at hd
   exact ⟨hlev, by omega, hp, hne, hidx, by omega⟩
 
-/-- membership below the cap: a record is a candidate iff its term qualifies and is indexed,
-its `doc_freq` is the total over segments and its score the weight times that -/
+/-- the merge of ALL qualifying entries, in terms of the corpus totals -/
+theorem mem_mergeAll_qOf (segs : List (Dict κ)) (input : List κ) (fz : Option FuzzyOpts)
+    (c : Cand κ) :
+    c ∈ mergeAll (segs.flatten.filterMap (qOf input fz)) ↔
+      (okOf input fz c.term = true ∧ totalDf segs c.term ≠ 0 ∧
+        c.df = totalDf segs c.term ∧ c.score6 = wOf input fz c.term * totalDf segs c.term) := by
+  rw [mem_mergeAll, qOf_eq_qGen, mem_terms_qGen, dfSum_qGen, scSum_qGen]
+  unfold totalDf
+  constructor
+  · rintro ⟨⟨h1, h2⟩, h3, h4⟩
+    rw [if_pos h1] at h3 h4
+    exact ⟨h1, h2, h3, h4⟩
+  · rintro ⟨h1, h2, h3, h4⟩
+    refine ⟨⟨h1, h2⟩, ?_, ?_⟩
+    · rw [if_pos h1]; exact h3
+    · rw [if_pos h1]; exact h4
+
+/-- the number of distinct qualifying terms depends on the corpus only through the per-term
+totals, i.e. not on how the documents are distributed over segments -/
+theorem matchingTerms_layout (segs₁ segs₂ : List (Dict κ)) (input : List κ) (fz : Option FuzzyOpts)
+    (hsame : ∀ t, totalDf segs₁ t = totalDf segs₂ t) :
+    matchingTerms segs₁ input fz = matchingTerms segs₂ input fz := by
+  unfold matchingTerms
+  apply List.Perm.length_eq
+  rw [List.perm_ext_iff_of_nodup (nodup_of_terms_nodup _ (mergeAll_nodup _))
+    (nodup_of_terms_nodup _ (mergeAll_nodup _))]
+  intro c
+  rw [mem_mergeAll_qOf, mem_mergeAll_qOf, hsame c.term]
+
+/-- membership while at most `cap` distinct terms match: a record is a candidate iff its term
+qualifies and is indexed, its `doc_freq` is the total over segments and its score the weight
+times that -/
 theorem mem_collect_under_cap (segs : List (Dict κ)) (input : List κ) (size : Nat)
-    (fz : Option FuzzyOpts) (hcap : matchingPairs segs input fz ≤ scanCap size fz) (c : Cand κ) :
+    (fz : Option FuzzyOpts) (hcap : matchingTerms segs input fz ≤ scanCap size fz) (c : Cand κ) :
     c ∈ collect segs input size fz ↔
       (disabled input fz = false ∧ okOf input fz c.term = true ∧ totalDf segs c.term ≠ 0 ∧
         c.df = totalDf segs c.term ∧ c.score6 = wOf input fz c.term * totalDf segs c.term) := by
@@ -339,23 +413,13 @@ theorem mem_collect_under_cap (segs : List (Dict κ)) (input : List κ) (size : 
   · simp [hd]
   · have hd' : disabled input fz = false := by simpa using hd
     simp only [hd', Bool.false_eq_true, if_false, true_and]
-    rw [scan_is_take, List.take_of_length_le hcap, mem_mergeAll, qOf_eq_qGen, mem_terms_qGen,
-      dfSum_qGen, scSum_qGen]
-    unfold totalDf
-    constructor
-    · rintro ⟨⟨h1, h2⟩, h3, h4⟩
-      rw [if_pos h1] at h3 h4
-      exact ⟨h1, h2, h3, h4⟩
-    · rintro ⟨h1, h2, h3, h4⟩
-      refine ⟨⟨h1, h2⟩, ?_, ?_⟩
-      · rw [if_pos h1]; exact h3
-      · rw [if_pos h1]; exact h4
+    rw [scan_is_merge segs input size fz hcap, mem_mergeAll_qOf]
 
 /-- `doc_freq` = number of documents containing the term, score = weight × that
-— provided the qualifying (segment, term) pairs fit under the scan cap -/
-theorem suggest_df_sum_partial (ltT : List κ → List κ → Bool) (segs : List (Dict κ))
+— while the number of distinct matching terms is at most the scan cap -/
+theorem suggest_df_sum (ltT : List κ → List κ → Bool) (segs : List (Dict κ))
     (input : List κ) (size : Nat) (fz : Option FuzzyOpts)
-    (hcap : matchingPairs segs input fz ≤ scanCap size fz) :
+    (hcap : matchingTerms segs input fz ≤ scanCap size fz) :
     ∀ c ∈ suggest ltT segs input size fz,
       c.df = totalDf segs c.term ∧ c.score6 = wOf input fz c.term * totalDf segs c.term := by
   intro c hc
@@ -373,34 +437,46 @@ theorem wOf_fuzzy (input : List κ) (o : FuzzyOpts) (t : List κ)
   rcases this with rfl | rfl | rfl <;> decide
 
 /-- completeness below the cap: every qualifying indexed term is a candidate -/
-theorem suggest_complete_partial (segs : List (Dict κ)) (input : List κ) (size : Nat)
-    (fz : Option FuzzyOpts) (hcap : matchingPairs segs input fz ≤ scanCap size fz)
+theorem suggest_complete (segs : List (Dict κ)) (input : List κ) (size : Nat)
+    (fz : Option FuzzyOpts) (hcap : matchingTerms segs input fz ≤ scanCap size fz)
     (t : List κ) (hd : disabled input fz = false) (hok : okOf input fz t = true)
     (hidx : totalDf segs t ≠ 0) :
     (⟨t, totalDf segs t, wOf input fz t * totalDf segs t⟩ : Cand κ) ∈ collect segs input size fz :=
   (mem_collect_under_cap segs input size fz hcap _).mpr ⟨hd, hok, hidx, rfl, rfl⟩
 
-/-- two layouts of the same corpus (same per-term totals) give identical options — provided
-the qualifying (segment, term) pairs of both layouts fit under the scan cap -/
-theorem suggest_layout_independent_partial {ltT : List κ → List κ → Bool} (h : StrictTotal ltT)
+/-- **Layout independence, full strength.**  Two layouts of the same corpus — the same
+documents distributed differently over segments, hence the same per-term totals — give
+identical options (texts, `doc_freq`, scores, order) while the number of distinct matching
+terms is at most the scan cap.  The hypothesis is about the corpus, not about a layout
+(`matchingTerms_layout`), so it is stated for one of them. -/
+theorem suggest_layout_independent {ltT : List κ → List κ → Bool} (h : StrictTotal ltT)
     (segs₁ segs₂ : List (Dict κ)) (input : List κ) (size : Nat) (fz : Option FuzzyOpts)
     (hsame : ∀ t, totalDf segs₁ t = totalDf segs₂ t)
-    (h₁ : matchingPairs segs₁ input fz ≤ scanCap size fz)
-    (h₂ : matchingPairs segs₂ input fz ≤ scanCap size fz) :
+    (hcap : matchingTerms segs₁ input fz ≤ scanCap size fz) :
     suggest ltT segs₁ input size fz = suggest ltT segs₂ input size fz := by
+  have h₂ : matchingTerms segs₂ input fz ≤ scanCap size fz := by
+    rw [← matchingTerms_layout segs₁ segs₂ input fz hsame]; exact hcap
   have hperm : (collect segs₁ input size fz).Perm (collect segs₂ input size fz) := by
     rw [List.perm_ext_iff_of_nodup
       (nodup_of_terms_nodup _ (collect_terms_nodup segs₁ input size fz))
       (nodup_of_terms_nodup _ (collect_terms_nodup segs₂ input size fz))]
     intro c
-    rw [mem_collect_under_cap segs₁ input size fz h₁, mem_collect_under_cap segs₂ input size fz h₂,
+    rw [mem_collect_under_cap segs₁ input size fz hcap, mem_collect_under_cap segs₂ input size fz h₂,
       hsame c.term]
   unfold suggest
   split
   · rfl
   · rw [sortBy_eq, sortBy_eq, SL.ISort.isort_perm (before_strictTotal h) hperm]
 
-/-! ## negative witness: the cap counts (segment, term) pairs, not terms -/
+/-- the property's wording: *fewer* terms than the scan cap -/
+theorem suggest_layout_independent_of_lt {ltT : List κ → List κ → Bool} (h : StrictTotal ltT)
+    (segs₁ segs₂ : List (Dict κ)) (input : List κ) (size : Nat) (fz : Option FuzzyOpts)
+    (hsame : ∀ t, totalDf segs₁ t = totalDf segs₂ t)
+    (hcap : matchingTerms segs₁ input fz < scanCap size fz) :
+    suggest ltT segs₁ input size fz = suggest ltT segs₂ input size fz :=
+  suggest_layout_independent h segs₁ segs₂ input size fz hsame (Nat.le_of_lt hcap)
+
+/-! ## the legacy model (before e9ca503): the cap counted (segment, term) pairs, not terms -/
 
 /-- lexicographic order on `List Nat` (stands for byte order of the term text) -/
 def lexLt : List Nat → List Nat → Bool
@@ -413,22 +489,33 @@ def wOpts : FuzzyOpts := ⟨1, 0, 2, 0⟩          -- max_edits 1, prefix_length
 def wOne : List (Dict Nat) := [[([1, 2], 3)]]                               -- one segment, df 3
 def wThree : List (Dict Nat) := [[([1, 2], 1)], [([1, 2], 1)], [([1, 2], 1)]]   -- three segments
 
-/-- One matching term, scan cap 2, same corpus in two layouts: with three segments the third
-occurrence is never counted (`doc_freq` 2 instead of 3), although fewer terms (1) than the scan
-cap (2) match. -/
-theorem cap_counts_pairs_not_terms :
+/-- LEGACY model, kept as the record of the fixed finding.  One matching term, scan cap 2, same
+corpus in two layouts: with three segments the third occurrence was never counted (`doc_freq` 2
+instead of 3), although fewer terms (1) than the scan cap (2) match. -/
+theorem legacy_cap_counts_pairs_not_terms :
     (∀ t, totalDf wOne t = totalDf wThree t) ∧
     scanCap 1 (some wOpts) = 2 ∧
     matchingTerms wOne [1, 2] (some wOpts) = 1 ∧ matchingTerms wThree [1, 2] (some wOpts) = 1 ∧
     matchingPairs wThree [1, 2] (some wOpts) = 3 ∧
-    suggest lexLt wOne [1, 2] 1 (some wOpts) = [⟨[1, 2], 3, 18⟩] ∧
-    suggest lexLt wThree [1, 2] 1 (some wOpts) = [⟨[1, 2], 2, 12⟩] := by
+    legacy_suggest lexLt wOne [1, 2] 1 (some wOpts) = [⟨[1, 2], 3, 18⟩] ∧
+    legacy_suggest lexLt wThree [1, 2] 1 (some wOpts) = [⟨[1, 2], 2, 12⟩] := by
   refine ⟨?_, by decide, by decide, by decide, by decide, by decide, by decide⟩
   intro t
   by_cases h : t = [1, 2]
   · subst h; decide
   · have h' : ¬ [1, 2] = t := fun e => h e.symm
     simp [totalDf, tdf, wOne, wThree, h']
+
+/-- the current model on the same input: both layouts give `doc_freq` 3 -/
+theorem fixed_on_witness :
+    suggest lexLt wOne [1, 2] 1 (some wOpts) = [⟨[1, 2], 3, 18⟩] ∧
+    suggest lexLt wThree [1, 2] 1 (some wOpts) = [⟨[1, 2], 3, 18⟩] := by
+  decide
+
+/-- the cap still bounds the number of distinct terms: cap 2, three qualifying terms, the third
+new term is refused while the first two keep accumulating from later segments -/
+example : collect [[([1, 2], 1), ([1, 3], 1)], [([1, 2], 1), ([1, 4], 5), ([1, 3], 2)]] [1, 2] 1
+    (some wOpts) = [⟨[1, 2], 2, 12⟩, ⟨[1, 3], 3, 9⟩] := by decide
 
 /-! ## non-vacuity -/
 
